@@ -256,4 +256,127 @@ theorem getSidecar_ok (pending : List Ticket) (n : Bytes) (d : Order) (h : getSi
         obtain ⟨t', ht', h1, h2⟩ := ih h
         exact ⟨t', List.mem_cons_of_mem _ ht', h1, h2⟩
 
+/-! ### whole batches -/
+
+theorem resFoldl_append {σ α : Type} (f : σ → α → Res σ) (s : σ) (xs ys : List α) :
+    resFoldl f s (xs ++ ys) = (resFoldl f s xs).bind fun s' => resFoldl f s' ys := by
+  induction xs generalizing s with
+  | nil => simp [resFoldl, Res.bind]
+  | cons x rest ih =>
+    simp only [List.cons_append, resFoldl]
+    cases hx : f s x with
+    | ok s' => simp only [Res.bind]; exact ih s'
+    | err => simp [Res.bind]
+    | panic => simp [Res.bind]
+
+/-- the nested loops are one loop over the flattened (our order, matched order) pairs -/
+theorem prepBatch_flat (env : Env) (node : Bytes) (tx : BatchTx) (hint : Nat)
+    (batch : List (Order × List MatchedOrder)) (st : PrepOut) :
+    resFoldl (prepOrder env node tx hint) st batch =
+    resFoldl (fun st (p : Order × MatchedOrder) => prepMatch env node p.1 tx hint st p.2) st (flatPairs batch) := by
+  induction batch generalizing st with
+  | nil => simp [flatPairs, resFoldl]
+  | cons e rest ih =>
+    have hfl : flatPairs (e :: rest) = (e.2.map fun m => (e.1, m)) ++ flatPairs rest := by
+      simp [flatPairs]
+    rw [hfl, resFoldl_append]
+    simp only [resFoldl, prepOrder]
+    have hinner : ∀ (ms : List MatchedOrder) (s0 : PrepOut),
+        resFoldl (prepMatch env node e.1 tx hint) s0 ms =
+        resFoldl (fun st (p : Order × MatchedOrder) => prepMatch env node p.1 tx hint st p.2) s0
+          (ms.map fun m => (e.1, m)) := by
+      intro ms
+      induction ms with
+      | nil => intro s0; simp [resFoldl]
+      | cons m ms ihm =>
+        intro s0
+        simp only [List.map_cons, resFoldl]
+        cases hm : prepMatch env node e.1 tx hint s0 m with
+        | ok s' => simp only [Res.bind]; exact ihm s'
+        | err => simp [Res.bind]
+        | panic => simp [Res.bind]
+    rw [hinner]
+    cases hr : resFoldl (fun st (p : Order × MatchedOrder) => prepMatch env node p.1 tx hint st p.2) st
+        (e.2.map fun m => (e.1, m)) with
+    | ok s' => simp only [Res.bind]; exact ih s'
+    | err => simp [Res.bind]
+    | panic => simp [Res.bind]
+
+/-- if every pair registers `f pair`, the loop registers exactly those, in order, after what was there -/
+theorem prepFlat_regs (env : Env) (node : Bytes) (tx : BatchTx) (hint : Nat)
+    (pairs : List (Order × MatchedOrder)) (f : Order × MatchedOrder → Shim × Bytes × ExpBid) (st out : PrepOut)
+    (hall : ∀ p, p ∈ pairs → prepRegisters env node p.1 p.2 tx hint = .ok (some (f p)))
+    (h : resFoldl (fun st (p : Order × MatchedOrder) => prepMatch env node p.1 tx hint st p.2) st pairs = .ok out) :
+    out.regs = st.regs ++ pairs.map f := by
+  induction pairs generalizing st with
+  | nil =>
+    simp [resFoldl] at h
+    subst h
+    simp
+  | cons p rest ih =>
+    have hp := hall p List.mem_cons_self
+    simp only [resFoldl, prepMatch, hp, Res.bind] at h
+    have := ih _ (fun q hq => hall q (List.mem_cons_of_mem _ hq)) h
+    rw [this]
+    simp
+
+/-- … and the loop does not fail -/
+theorem prepFlat_ok (env : Env) (node : Bytes) (tx : BatchTx) (hint : Nat)
+    (pairs : List (Order × MatchedOrder)) (f : Order × MatchedOrder → Shim × Bytes × ExpBid) (st : PrepOut)
+    (hall : ∀ p, p ∈ pairs → prepRegisters env node p.1 p.2 tx hint = .ok (some (f p))) :
+    ∃ out, resFoldl (fun st (p : Order × MatchedOrder) => prepMatch env node p.1 tx hint st p.2) st pairs = .ok out := by
+  induction pairs generalizing st with
+  | nil => exact ⟨st, rfl⟩
+  | cons p rest ih =>
+    have hp := hall p List.mem_cons_self
+    simp only [resFoldl, prepMatch, hp, Res.bind]
+    exact ih _ (fun q hq => hall q (List.mem_cons_of_mem _ hq))
+
+theorem setupBatch_flat (env : Env) (tx : BatchTx) (hint : Nat)
+    (batch : List (Order × List MatchedOrder)) (st : List OpenReq) :
+    resFoldl (fun st (e : Order × List MatchedOrder) => resFoldl (setupMatch env e.1 tx hint) st e.2) st batch =
+    resFoldl (fun st (p : Order × MatchedOrder) => setupMatch env p.1 tx hint st p.2) st (flatPairs batch) := by
+  induction batch generalizing st with
+  | nil => simp [flatPairs, resFoldl]
+  | cons e rest ih =>
+    have hfl : flatPairs (e :: rest) = (e.2.map fun m => (e.1, m)) ++ flatPairs rest := by
+      simp [flatPairs]
+    rw [hfl, resFoldl_append]
+    simp only [resFoldl]
+    have hinner : ∀ (ms : List MatchedOrder) (s0 : List OpenReq),
+        resFoldl (setupMatch env e.1 tx hint) s0 ms =
+        resFoldl (fun st (p : Order × MatchedOrder) => setupMatch env p.1 tx hint st p.2) s0
+          (ms.map fun m => (e.1, m)) := by
+      intro ms
+      induction ms with
+      | nil => intro s0; simp [resFoldl]
+      | cons m ms ihm =>
+        intro s0
+        simp only [List.map_cons, resFoldl]
+        cases hm : setupMatch env e.1 tx hint s0 m with
+        | ok s' => simp only [Res.bind]; exact ihm s'
+        | err => simp [Res.bind]
+        | panic => simp [Res.bind]
+    rw [hinner]
+    cases hr : resFoldl (fun st (p : Order × MatchedOrder) => setupMatch env p.1 tx hint st p.2) st
+        (e.2.map fun m => (e.1, m)) with
+    | ok s' => simp only [Res.bind]; exact ih s'
+    | err => simp [Res.bind]
+    | panic => simp [Res.bind]
+
+theorem setupFlat_reqs (env : Env) (tx : BatchTx) (hint : Nat)
+    (pairs : List (Order × MatchedOrder)) (f : Order × MatchedOrder → OpenReq) (st : List OpenReq)
+    (hall : ∀ p, p ∈ pairs → batchChannelSetup env p.1 p.2 tx hint = .ok (some (f p))) :
+    resFoldl (fun st (p : Order × MatchedOrder) => setupMatch env p.1 tx hint st p.2) st pairs =
+      .ok (st ++ pairs.map f) := by
+  induction pairs generalizing st with
+  | nil => simp [resFoldl]
+  | cons p rest ih =>
+    have hp := hall p List.mem_cons_self
+    simp only [resFoldl, setupMatch, hp, Res.bind]
+    have := ih (st ++ [f p]) (fun q hq => hall q (List.mem_cons_of_mem _ hq))
+    simp only [List.map_cons]
+    rw [show st ++ f p :: List.map f rest = st ++ [f p] ++ List.map f rest by simp]
+    exact this
+
 end Pool.C17
